@@ -71,9 +71,16 @@ def gen_alphabet(rng):
     add(dict(alpha[0], precision="single"))  # the single-precision twin
     kinds = ["srf_flx.shape", "modes", "footprint", "analytic", "halo.other", "halo.none", "levels.list", "levels.reorder",
              "levels.scalar", "domain", "z", "profiles.u", "meas_pt", "srf_bg_conc", "precision", "srf_flx.values"]
+    # always one neighbour with identical array shapes but different values: a
+    # memo or buffer keyed by shapes alone collides on it
+    for _ in range(6):
+        s = S.neighbour(alpha[0], rng.choice(["domain", "z", "profiles.u", "profiles.Kz", "meas_pt", "halo.subcell", "srf_bg_conc", "profiles.Kx"]), rng)
+        if s is not None:
+            add(s)
+            break
     n = rng.choice([2, 3, 4])
     tries = 0
-    while len(alpha) < 2 + n and tries < 30:
+    while len(alpha) < 3 + n and tries < 30:
         tries += 1
         p = alpha[rng.randrange(len(alpha))]
         s = S.neighbour(p, rng.choice(kinds), rng)
